@@ -58,6 +58,18 @@ def run(ctx):
             t.raw(pure.ev_finalize_sym(ida, b"S" + X[1:], b"S" + Y[1:], K, pw))
             t.raw(pure.ev_finalize_sym(ida, b"A" + X[1:], b"S" + Y[1:], b"B" + K[1:], pw))
     traces.append(t.to_json())
+    # separator shifts: for EVERY byte value s, the same concatenation-with-separator split at different field
+    # boundaries (pw|idA, idA|idB, idS|m1), computed one after the other in one process - every split is a different
+    # transcript (any internal joining of fields, cached or not, must keep them apart)
+    t = Trace("finalize-separators", uni)
+    x, y, z, w = b"al", b"ice", b"bob", b"pw"
+    for sv in range(256):
+        s = bytes([sv])
+        for pw, ida, idb in [(w, x + s + y, z), (w, x, y + s + z), (w + s + x, y, z), (w, x + s + y + s + z, b""), (w + s + x + s + y, z, b"")]:
+            t.raw(pure.ev_finalize(ida, idb, b"X" * 4, b"Y" * 4, b"K" * 4, pw))
+        for pw, ids, m1 in [(w, x + s + y, z), (w + s + x, y, z), (w, x, y + s + z)]:
+            t.raw(pure.ev_finalize_sym(ids, m1, b"Y" * 4, b"K" * 4, pw))
+    traces.append(t.to_json())
     # very long arguments
     t = Trace("finalize-long", uni)
     big = bytes((i * 7 + 3) % 256 for i in range(70000))
